@@ -317,6 +317,39 @@ def run(prog, chk):
     delimiter_agreement(prog, chk)
     r5 = chk.rule("R5-monotone-accumulators", ACC_DESC, floor=3)
     accumulator_rule(prog, r5)
+    r7 = chk.rule("R7-unquoting-refuses-the-empty-string", "cif_value_set_quoted(NOT_QUOTED): the store that marks a character value "
+                  "unquoted is reached only where the first character of its text was found non-zero (an empty string has no "
+                  "whitespace-delimited form)", primary=False, floor=1)
+    sq = prog.fn("cif_value_set_quoted_impl")
+    qparam = sq.params[1]["name"] if len(sq.params) > 1 else None
+    stores = [(b, i, a) for (b, i, r, a) in sq.eval_sites("asg")
+              if (path(strip(a.get("lhs"))) or "").endswith("as_char.quoted") and path(strip(a.get("rhs"))) == qparam]
+    if not stores:
+        raise Broken("cif_value_set_quoted_impl: the store `as_char.quoted = %s` of the unquoting branch was not found" % qparam)
+
+    def first_char(e):
+        e = strip(e)
+        if not isinstance(e, dict):
+            return False
+        if e.get("k") == "un" and e.get("op") == "*":
+            return (path(strip(e.get("e"))) or "").endswith("as_char.text")
+        if e.get("k") == "index" and const(e.get("idx")) == 0:
+            return (path(strip(e.get("base"))) or "").endswith("as_char.text")
+        return False
+
+    def nonempty(c):
+        z = cfgq.zero_test(c, first_char)
+        return None if z is None else ("false" if z == "true" else "true")
+    ne = cfgq.guard_edges(sq, nonempty)
+    for (b, i, a) in stores:
+        if ne and cfgq.must_pass_edge(sq, b.id, ne):
+            r7.ok("cif_value_set_quoted_impl:L%s" % a.get("l"), "dominated by a test that the text's first character is not 0")
+        else:
+            r7.violation(sq.file, sq.name, a.get("l"), "unquote-empty-string",
+                         "`as_char.quoted = %s` at L%s is reachable without the first character of the text having been tested "
+                         "against 0: unquoting the empty string succeeds, although the empty string cannot be written "
+                         "whitespace-delimited" % (qparam, a.get("l")))
+
     r6 = chk.rule("R6-parser-counts-contiguous-delimiters", "the analyser offers triple quotes when the string does not contain three "
                   "*contiguous* delimiter characters (u_strstr): the parser's closing-delimiter counter must count contiguous "
                   "characters too - it is reset by every other character, line terminators included", primary=False, floor=1)
